@@ -63,6 +63,10 @@ impl<const BITS: usize, const LIMBS: usize> Uint<BITS, LIMBS> {
                 let (r, o) = result.overflowing_mul(self);
                 result = r;
                 overflow |= o | base_overflow;
+                #[cfg(feature = "recmo_uint_verif")]
+                if !o && base_overflow {
+                    crate::verif_hooks::hit(130);
+                }
             }
 
             // Square base
